@@ -137,7 +137,9 @@ class Ctx:
                 return
             cond = cond.b
         self.path.append(cond)
-        if self.check() == "unsat":
+        # feasibility is only checked cheaply (linear part); a path made infeasible by a nonlinear
+        # contract would discharge everything vacuously - the reachability twin guards against that
+        if is_linear(cond) and self.check_lin() == "unsat":
             raise Infeasible()
 
     def lin_solver(self):
@@ -937,11 +939,23 @@ def ite(c, a, b):
         a, b = sb(a), sb(b)
         return SB(z3.If(c.b, a.z(), b.z()))
     a, b = SV(a), SV(b)
+    if isinstance(a.v, XR):
+        a = _xr_const(a.v)
+    if isinstance(b.v, XR):
+        b = _xr_const(b.v)
     if a.concrete and b.concrete and not isinstance(a.v, XR) and not isinstance(b.v, XR) and a.v == b.v:
         return a
     if (not a.concrete) and (not b.concrete) and a.v.eq(b.v):
         return a
     return SV(z3.If(c.b, zexpr(a), zexpr(b)))
+
+
+def _xr_const(x):
+    """nan / +-inf selected by a symbolic condition: distinguished unconstrained constants
+    (an obligation that can reach them compares them with a finite term and fails, as it should)"""
+    f = float(x)
+    name = "NaN!" if f != f else ("+Inf!" if f > 0 else "-Inf!")
+    return SV(z3.Real(name))
 
 
 # ------------------------------------------------------------------------------------------------
